@@ -380,6 +380,21 @@ pub fn run(ctx: &Ctx) {
             let c = s2.coords(i);
             judge_junk(&junks[c[0]], &msgs[c[1]], &suffixes[c[2]], loc);
         }));
+        // long tails: junk ++ message ++ a tail whose length puts the whole buffer just below / at / above
+        // a multiple of 64 KiB (length arithmetic in 16 bits)
+        {
+            let lj: Vec<Vec<u8>> = vec![b"X".to_vec(), vec![0u8; 7], b"DLT".to_vec(), vec![0x58; 17]];
+            let lm: Vec<&Vec<u8>> = msgs.iter().step_by((msgs.len() / 6).max(1)).take(6).collect();
+            let tails: Vec<usize> = (65_480..=65_560).chain(131_040..=131_080).collect();
+            let sp = Space::new(&[lj.len(), lm.len(), tails.len()]);
+            let s2 = sp.clone();
+            let (lj, lm, tails) = (&lj, &lm, &tails);
+            ctx.run_family(Family::new("c06.parse.long_tails", sp.size(), format!("4 junk strings x 6 messages x a zero tail of EVERY length in 65480..=65560 and 131040..=131080 behind the message: same message and remainder as without junk"), move |i, loc| {
+                let c = s2.coords(i);
+                let tail = vec![0u8; tails[c[2]]];
+                judge_junk(&lj[c[0]], lm[c[1]], &tail, loc);
+            }));
+        }
         // streams j0 m1 j1 m2 j2 m3 j3
         let sm: Vec<&Vec<u8>> = msgs.iter().step_by((msgs.len() / ctx.tier.pick(6, 12)).max(1)).take(ctx.tier.pick(6, 12)).collect();
         let sj: Vec<Vec<u8>> = vec![vec![], b"D".to_vec(), b"DLT".to_vec(), b"XDL".to_vec(), b"DLTD\0".to_vec(), vec![0; 17]];
